@@ -233,9 +233,10 @@ def run_property(pid, tier='quick', seed=0, only=None, jobs=None):
             cov['extra_coverage_error'] = repr(e)
     ev = {'property_id': pid, 'tier': tier, 'seed': int(seed), 'level': level, 'coverage': cov,
           'assumptions': getattr(mod, 'ASSUMPTIONS', []), 'wall_s': wall, 'violations': len(violations)}
-    os.makedirs(os.path.join(ROOT, 'evidence'), exist_ok=True)
+    evdir = os.environ.get('VERIF_EVIDENCE_DIR') or os.path.join(ROOT, 'evidence')   # seed evaluation on a scratch copy writes elsewhere
+    os.makedirs(evdir, exist_ok=True)
     if not only:
-        with open(os.path.join(ROOT, 'evidence', pid + '.json'), 'w') as f:
+        with open(os.path.join(evdir, pid + '.json'), 'w') as f:
             json.dump(ev, f, indent=1)
 
     for line in sorted(set(known_lines)):
